@@ -434,6 +434,7 @@ class Check:
         os.makedirs(os.path.join(VERIF, "evidence"), exist_ok=True)
         os.makedirs(os.path.join(VERIF, "replay"), exist_ok=True)
         violations = []
+        replayed_per_finding = {}
         known = {}
         engine_faults = list(self.faults)
         undecided = list(self.undecided)
@@ -443,8 +444,16 @@ class Check:
             if ob.status in (UNKNOWN, UNSUPPORTED):
                 undecided.append((ob.key, ob.detail or ob.status))
                 continue
-            # refuted: replay natively
+            # refuted: replay natively (every refutation outside the known findings; of each known finding the first
+            # REPLAYS_PER_FINDING instances - the finding is already witnessed, replaying thousands of instances only costs time)
             confirmed, rtext, rargs = None, "", None
+            f0 = self.match_finding(ob)
+            if f0 is not None and ob.replay is not None and not getattr(ob, "observed_natively", False):
+                n_rep = replayed_per_finding.get(f0["id"], 0)
+                if n_rep >= REPLAYS_PER_FINDING:
+                    known.setdefault(f0["id"], []).append(ob)
+                    continue
+                replayed_per_finding[f0["id"]] = n_rep + 1
             if ob.replay is not None and getattr(ob, "observed_natively", False):
                 kind, rargs = ob.replay
                 confirmed, rtext = True, ob.detail
@@ -592,6 +601,9 @@ def _worker(a):
 
 def _safe(s):
     return re.sub(r"[^A-Za-z0-9_.=-]+", "_", s)[:150]
+
+
+REPLAYS_PER_FINDING = 25
 
 
 def load_findings():
